@@ -504,18 +504,18 @@ def build():
                             ('reader.handle.abort();', 'reader_abort(reader);', 1)],
                post_rewrite=[('readers: &mut HashMap<ConnectionId, ReaderHandle>', 'readers: &mut HashMap<u64, ReaderHandle>', 1), ('packet_tx: &UnboundedSender<UplinkPacket>', 'packet_tx: &PacketTx', 1)],
                ensures=[
-                   C('C19.conns.sync_readers.no_reader_survives_for_a_link_that_is_not_in_the_list',
+                   C('C09+C19.conns.sync_readers.no_reader_survives_for_a_link_that_is_not_in_the_list',
                      'forall|k: u64| #[trigger] final(readers)@.contains_key(k) ==> has_conn_id(connections@, connections@.len() as int, k)'),
-                   C('C19.conns.sync_readers.every_link_with_an_io_handle_has_a_reader',
+                   C('C09+C19.conns.sync_readers.every_link_with_an_io_handle_has_a_reader',
                      'forall|j: int| 0 <= j < connections.len() && conn_io@.contains_key((#[trigger] connections[j]).conn_id) ==> final(readers)@.contains_key(connections[j].conn_id)'),
-                   C('C19.conns.sync_readers.readers_of_listed_links_are_kept',
+                   C('C09+C19.conns.sync_readers.readers_of_listed_links_are_kept',
                      'forall|k: u64| old(readers)@.contains_key(k) && has_conn_id(connections@, connections@.len() as int, k) ==> #[trigger] final(readers)@.contains_key(k)'),
                ],
                loops={
                    'active_ids.insert(': dict(inv=['conn_nx <= connections.len()',
                                                    'forall|k: u64| #[trigger] active_ids@.contains(k) == has_conn_id(connections@, conn_nx as int, k)',
                                                    'forall|k: u64| old(readers)@.contains_key(k) ==> #[trigger] readers@.contains_key(k)',
-                                                   C('C19.conns.sync_readers.every_link_with_an_io_handle_has_a_reader',
+                                                   C('C09+C19.conns.sync_readers.every_link_with_an_io_handle_has_a_reader',
                                                      'forall|j: int| 0 <= j < conn_nx && conn_io@.contains_key((#[trigger] connections[j]).conn_id) ==> readers@.contains_key(connections[j].conn_id)')],
                                               dec='connections.len() - conn_nx',
                                               end="""        proof {
@@ -528,7 +528,7 @@ def build():
                                                 'forall|k: u64| #[trigger] active_ids@.contains(k) == has_conn_id(connections@, connections@.len() as int, k)',
                                                 'forall|k: u64| readers_keys@.contains(k) == #[trigger] r_mid.contains_key(k)', 'forall|a: int, b: int| 0 <= a < b < readers_keys.len() ==> readers_keys[a] != readers_keys[b]',
                                                 'forall|k: u64| #[trigger] readers@.contains_key(k) ==> r_mid.contains_key(k)',
-                                                C('C19.conns.sync_readers.no_reader_survives_for_a_link_that_is_not_in_the_list',
+                                                C('C09+C19.conns.sync_readers.no_reader_survives_for_a_link_that_is_not_in_the_list',
                                                   'forall|i: int| 0 <= i < conn_id_nx ==> (readers@.contains_key(#[trigger] readers_keys[i]) == active_ids@.contains(readers_keys[i]))'),
                                                 'forall|i: int| conn_id_nx <= i < readers_keys.len() ==> readers@.contains_key(#[trigger] readers_keys[i])'],
                                            dec='readers_keys.len() - conn_id_nx',
